@@ -62,7 +62,9 @@ function bApiModule(B, C, k) {
   const rng = new Rng(1, "bapi", k);
   const { b, buntyped } = B;
   const n = rng.range(2, 6);
-  const names = Array.from({ length: n }, (_, i) => `Bm${k}N${i}`);
+  // some of the names look like integers (own keys of that kind come first in Object.keys)
+  const numeric = rng.chance(1, 2);
+  const names = Array.from({ length: n }, (_, i) => (numeric && rng.chance(1, 2) ? String(1000 * (k + 1) + (n - i)) : `Bm${k}N${i}`));
   const named = names.map((nm) => C.createNamedType(nm, b.Unknown()));
   const leaf = () => {
     const r = rng.below(12);
@@ -83,6 +85,8 @@ function bApiModule(B, C, k) {
   const P = {};
   names.forEach((nm, i) => (P[nm] = named[i]));
   P[`Bm${k}Inline`] = b.Object({ a: named[0], b: b.Array(named[n - 1]) });
+  // cannot be printed, but only after a printable named type was met (and stored) on the way
+  P[`Bm${k}Poison`] = b.Object({ ok: named[rng.below(n)], bad: b.Date(), ok2: named[rng.below(n)] });
   return { id: `bapi_${k}`, P, names: Object.keys(P).sort(), cache: new Map(), file: null, sf: {}, nf: {} };
 }
 
@@ -176,7 +180,9 @@ function genC16(mods, SPC, index) {
   const rich = mods.filter((m) => namesOfModule(SPC, m).length >= 2 && m.names.length >= 2);
   const poison = mods.filter((m) => (namesOfModule(SPC, m), m.throwing.length > 0 && m.names.length >= 2));
   const r = rng.below(8);
-  if (r < 4 && rich.length) mod = rng.pick(rich);
+  const bapi = mods.filter((m) => m.id.startsWith("bapi_"));
+  if (r === 7 && bapi.length && rng.chance(1, 2)) mod = rng.pick(bapi);
+  else if (r < 4 && rich.length) mod = rng.pick(rich);
   else if (r < 6 && poison.length) mod = rng.pick(poison);
   else mod = rng.pick(mods);
   const defNames = namesOfModule(SPC, mod);
